@@ -98,6 +98,10 @@ def _containers_ok(s, allowed):
     return True
 
 
+def no_cse(s):
+    return not any(c[0] == "CommonSubexpression" for c in walk(s))
+
+
 def hashable(s):
     return not any(c[0] in ("list", "array") for c in walk(s) if c is not s)
 
@@ -161,9 +165,25 @@ def build_func(expr):
     return lambda env: fn(**env)
 
 
+_SHARED_IMPORTER = []
+
+
 def build_import(expr):
+    """Import back with a fresh importer AND with one importer instance that lives as long as
+    the worker process (the trees it saw earlier have been freed): both must agree."""
     from pymbolic.interop.ast import ASTToPymbolic, to_python_ast
-    return ASTToPymbolic()(to_python_ast(expr))
+    fresh = ASTToPymbolic()(to_python_ast(expr))
+    if not _SHARED_IMPORTER:
+        _SHARED_IMPORTER.append(ASTToPymbolic())
+    shared = _SHARED_IMPORTER[0](to_python_ast(expr))
+    if to_spec(shared) != to_spec(fresh):
+        raise InstanceHistory(f"a long-lived ASTToPymbolic instance returned {show(to_spec(shared))}"
+                              f", a fresh one {show(to_spec(fresh))}")
+    return fresh
+
+
+class InstanceHistory(Exception):
+    pass
 
 # }}}
 
@@ -183,12 +203,14 @@ def _close(a, b):
     if isinstance(a, (tuple, list)) and type(a) is type(b) and len(a) == len(b):
         return all(_close(x, y) for x, y in zip(a, b))
     if isinstance(a, float) or isinstance(b, float):
+        if type(a) is not type(b):
+            return False        # float vs exact: a constant's type was changed on the way
         try:
-            if isinstance(a, bool) or isinstance(b, bool):
-                return a == b
             return math.isclose(a, b, rel_tol=1e-9, abs_tol=1e-12) or (a != a and b != b)
         except TypeError:
             return False
+    if isinstance(a, (int, bool)) and isinstance(b, (int, bool)) and type(a) is not type(b):
+        return False            # True vs 1
     if isinstance(a, complex) or isinstance(b, complex):
         try:
             return abs(a - b) <= 1e-9 * max(1.0, abs(a))
@@ -362,11 +384,40 @@ class C13(Check):
             ("nest2", lambda: (("t", s) for _, s in gen.nest2(FRAG, FRAG, FILL)
                                if well_typed(s))),
             ("argorder", self.gen_argorder),
+            # equal-but-differently-typed bare constants in one tree (the composites around them
+            # differ in their variable: == composites are one memo key by design)
+            ("typed-twins", lambda: (("t", s) for s in gen.twin_trees(
+                gen.TYPED_TWINS, V("x"), V("y")) if well_typed(s) and no_cse(s))),
+            ("hash-twins", lambda: (("t", s) for s in gen.twin_trees()
+                                    if well_typed(s) and no_cse(s))),
+            ("bushy", lambda: (("t", s) for s in self.gen_bushy(tier) if well_typed(s))),
         ]
         red = REDUCED9 if tier == "quick" else REDUCED
         fams.append(("nest3", lambda: (("t", s) for _, s in gen.nest3(red, red, red, FILL)
                                        if well_typed(s))))
         return fams
+
+    BUSHY_Q = ("Sum2", "Product2", "Quotient", "FloorDiv", "Remainder", "Power", "Call1")
+    BUSHY_T = ("Sum2", "Product2", "Quotient", "FloorDiv", "Remainder", "Power", "LeftShift",
+               "BitwiseAnd2", "Cmp<", "LogicalOr2", "Call1", "BitwiseNot", "LogicalNot", "If")
+
+    def gen_bushy(self, tier):
+        """(grandparent, position) x binary parent whose BOTH operands are composite."""
+        names = self.BUSHY_Q if tier == "quick" else self.BUSHY_T
+        cs = [c for c in FRAG if c.name in names]
+        binary = [c for c in cs if len(c.slots) == 2 and c.slots[0] in "eb" and c.slots[1] in "eb"]
+        kids = [c(*gen.fill_slots(c, FILL, i)) for i, c in enumerate(cs)]
+        kids.append(C(-3))
+        for gp in cs:
+            for pos in range(len(gp.slots)):
+                if gp.slots[pos] not in "eb":
+                    continue
+                for par in binary:
+                    for k1 in kids:
+                        for k2 in kids:
+                            ch = gen.fill_slots(gp, FILL, 2)
+                            ch[pos] = par(k1, k2)
+                            yield gp(*ch)
 
     def gen_argorder(self):
         # expressions with 1..4 free variables whose value depends on the argument order
